@@ -78,6 +78,8 @@ class Interp:
             return ~o[e[1]]
         if k == 'T':
             return CMP[e[2]](o[e[1]], e[3])
+        if k == 'TT':         # comparison of two tracked values
+            return CMP[e[2]](o[e[1]], o[e[3]])
         if k == 'R':          # resource level comparison, e.g. ["R", "r0", ">=", {"a": 1}]
             return CMP[e[2]](o[e[1]], dict(e[3]))
         if k == 'DONE':
@@ -170,7 +172,21 @@ class Interp:
             await instant
 
     async def op_WAIT(self, act, pc, e):
-        return await self.cond(e)
+        r = await self.cond(e)
+        # the values of all atoms at the very moment the wait returns (same activation, no await in between)
+        self.ctx.rec('wait-done', act, pc, self.snapshot())
+        return r
+
+    def snapshot(self):
+        snap = {'now': time.now}
+        for name, obj in self.ctx.objs.items():
+            if isinstance(obj, Flag):
+                snap[name] = bool(obj)
+            elif isinstance(obj, Tracked):
+                snap[name] = obj.value
+        for name, task in self.ctx.tasks.items():
+            snap['done:' + name] = bool(task.done)
+        return snap
 
     # -- flags / tracked -------------------------------------------------------------------------
     async def op_SET(self, act, pc, f, v=True):
